@@ -235,9 +235,41 @@ fn run_boolagg(a: &Args) -> Args {
     vec![r.map(|b| vec![BigInt::from(b as u8)]).unwrap_or_default()]
 }
 
+/// temporal kernels that reduce to checked i64 / i32 add and sub.  Same header as c12.arith (signed = 1,
+/// bits = 64 or 32, op in {1 add, 3 sub}) followed by [kind; unit; use the *_wrapping entry point]:
+/// kind 0 Duration op Duration, 1 Timestamp op Duration, 2 Timestamp - Timestamp -> Duration,
+/// 3 Interval(YearMonth) op Interval(YearMonth), 4 Date64 - Date64 -> Duration(ms).
+/// (for these types add_wrapping/sub_wrapping are checked as well)
+fn run_temporal(a: &Args) -> Args {
+    fn go<TL: ArrowPrimitiveType, TR: ArrowPrimitiveType, TO: ArrowPrimitiveType>(a: &Args) -> Args
+    where TL::Native: Nat, TR::Native: Nat, TO::Native: Nat {
+        let l = build::<TL>(&a[1], hb(a, 5).then_some(&a[2]), h(a, 7) as usize);
+        let r = build::<TR>(&a[3], hb(a, 6).then_some(&a[4]), h(a, 8) as usize);
+        let op = h(a, 2) - if hb(a, 11) { 1 } else { 0 };
+        out_prim::<TO>(call_binop(op, l, hb(a, 3), r, hb(a, 4)))
+    }
+    match (h(a, 9), h(a, 10)) {
+        (0, 0) => go::<DurationSecondType, DurationSecondType, DurationSecondType>(a),
+        (0, 1) => go::<DurationMillisecondType, DurationMillisecondType, DurationMillisecondType>(a),
+        (0, 2) => go::<DurationMicrosecondType, DurationMicrosecondType, DurationMicrosecondType>(a),
+        (0, _) => go::<DurationNanosecondType, DurationNanosecondType, DurationNanosecondType>(a),
+        (1, 0) => go::<TimestampSecondType, DurationSecondType, TimestampSecondType>(a),
+        (1, 1) => go::<TimestampMillisecondType, DurationMillisecondType, TimestampMillisecondType>(a),
+        (1, 2) => go::<TimestampMicrosecondType, DurationMicrosecondType, TimestampMicrosecondType>(a),
+        (1, _) => go::<TimestampNanosecondType, DurationNanosecondType, TimestampNanosecondType>(a),
+        (2, 0) => go::<TimestampSecondType, TimestampSecondType, DurationSecondType>(a),
+        (2, 1) => go::<TimestampMillisecondType, TimestampMillisecondType, DurationMillisecondType>(a),
+        (2, 2) => go::<TimestampMicrosecondType, TimestampMicrosecondType, DurationMicrosecondType>(a),
+        (2, _) => go::<TimestampNanosecondType, TimestampNanosecondType, DurationNanosecondType>(a),
+        (3, _) => go::<IntervalYearMonthType, IntervalYearMonthType, IntervalYearMonthType>(a),
+        _ => go::<Date64Type, Date64Type, DurationMillisecondType>(a),
+    }
+}
+
 pub fn run(op: &str, a: &Args) -> Option<Args> {
     Some(match op {
         "c12.arith" => int_dispatch!(hb(a, 0), h(a, 1), run_arith, a),
+        "c12.temporal" => run_temporal(a),
         "c12.neg" => int_dispatch!(hb(a, 0), h(a, 1), run_neg, a),
         "c12.i256" => run_i256(a),
         "c12.decimal" => dec_dispatch!(h(a, 0), run_decimal, a),
@@ -304,11 +336,21 @@ impl Side {
 }
 
 fn emit_arith(emit: &mut dyn FnMut(Case), signed: bool, bits: u32, op: i64, l: &Side, r: &Side, tag: String) {
+    emit_arith_x(emit, signed, bits, op, l, r, tag, None);
+}
+/// `temporal`: Some((kind, unit, wrapping entry point)) runs the same rows through a temporal kernel
+fn emit_arith_x(emit: &mut dyn FnMut(Case), signed: bool, bits: u32, op: i64, l: &Side, r: &Side, tag: String, temporal: Option<(i64, i64, bool)>) {
     let (lv, ln) = l.groups();
     let (rv, rn) = r.groups();
-    let hdr: Group = vec![(signed as i64).into(), bits.into(), op.into(), (l.scalar as i64).into(), (r.scalar as i64).into(),
+    let mut hdr: Group = vec![(signed as i64).into(), bits.into(), op.into(), (l.scalar as i64).into(), (r.scalar as i64).into(),
         (l.hasnulls as i64).into(), (r.hasnulls as i64).into(), l.off.into(), r.off.into()];
-    emit(Case::new("c12.arith", vec![hdr, lv, ln, rv, rn], &["c12.arith", "c12.arith.spec"], tag));
+    match temporal {
+        None => emit(Case::new("c12.arith", vec![hdr, lv, ln, rv, rn], &["c12.arith", "c12.arith.spec"], tag)),
+        Some((kind, unit, w)) => {
+            hdr.extend([BigInt::from(kind), BigInt::from(unit), BigInt::from(w as u8)]);
+            emit(Case::new("c12.temporal", vec![hdr, lv, ln, rv, rn], &["c12.arith", "c12.arith.spec"], format!("tmp k{} u{} w{} {}", kind, unit, w as u8, tag)));
+        }
+    }
 }
 
 fn len_class(n: usize) -> &'static str {
@@ -317,6 +359,9 @@ fn len_class(n: usize) -> &'static str {
 
 /// random array pair over the boundary set with the requested error policy
 fn gen_arith_random(r: &mut Rng, emit: &mut dyn FnMut(Case), signed: bool, bits: u32, op: i64, bnd: &[BigInt]) {
+    gen_arith_random_x(r, emit, signed, bits, op, bnd, None)
+}
+fn gen_arith_random_x(r: &mut Rng, emit: &mut dyn FnMut(Case), signed: bool, bits: u32, op: i64, bnd: &[BigInt], temporal: Option<(i64, i64, bool)>) {
     let layout = r.below(10); // 0..5 array/array, 6,7 scalar left / right, 8 both scalar, 9 special
     let n = match r.below(8) { 0 => r.below(4), 1 => 63 + r.below(4), 2 => 127 + r.below(3), _ => r.below(201) };
     let (ls, rs) = match layout { 6 => (true, false), 7 => (false, true), 8 => (true, true), _ => (false, false) };
@@ -359,7 +404,7 @@ fn gen_arith_random(r: &mut Rng, emit: &mut dyn FnMut(Case), signed: bool, bits:
     }
     let tag = format!("ar {}{} op{} lay{} n{} nl{}{} e{}", if signed { 'i' } else { 'u' }, bits, op, layout, len_class(n),
         l.hasnulls as u8, rr.hasnulls as u8, has_err as u8);
-    emit_arith(emit, signed, bits, op, &l, &rr, tag);
+    emit_arith_x(emit, signed, bits, op, &l, &rr, tag, temporal);
 }
 
 /// 8-bit: every operand pair.  For each left value `a`: one array case over all 256 right values
@@ -694,6 +739,20 @@ pub fn generate(tier: &str, r: &mut Rng, emit: &mut dyn FnMut(Case)) {
                 }
             }
             if signed { gen_neg(r, emit, signed, bits, false, vec![tmin(true, bits)], false, "negx"); }
+        }
+    }
+    // --- temporal kernels on the same checked i64 / i32 closures
+    for kind in 0..5i64 {
+        let bits = if kind == 3 { 32 } else { 64 };
+        let bnd = boundary(true, bits);
+        for unit in 0..(if kind < 3 { 4 } else { 1 }) {
+            for op in [1i64, 3] {
+                if op == 1 && (kind == 2 || kind == 4) { continue; }
+                for _ in 0..(if thorough { 150 } else { 15 }) {
+                    let w = r.bool();
+                    gen_arith_random_x(r, emit, true, bits, op, &bnd, Some((kind, unit, w)));
+                }
+            }
         }
     }
     gen_i256(tier, r, emit);
